@@ -347,3 +347,55 @@ def compile_errors_propagate(F, rep, core):
     if not bad:
         rep.ok("C06-R14", "compile_const-results-propagated", sample={"sites": n})
     rep.floor("C06-R14", "compile_const call sites whose result is propagated or unwrapped", n, 1000)
+
+
+def discriminant_tables(F, rep, core):
+    """C06-R15: `from_uN(n) => Some(E::V)` tables invert the enum's discriminants (the writers emit `E::V as uN`)"""
+    rep.rule("C06-R15", "tag decoders invert the discriminants: for every repr(uN) enum with a from_u8/from_u16 decoder, `n => E::V` holds exactly when V's discriminant is n "
+                        "(the writers emit `V as uN`; a swapped pair decodes one type as the other with no size or alignment error)")
+    from lib.minieval import ev, NoEval
+    enums = {}
+    for it in core:
+        if it["k"] == "enum" and any(a.startswith("repr(u") for a in it.get("attrs", [])):
+            disc = {}
+            cur = -1
+            okd = True
+            for v in it["variants"]:
+                if v.get("disc") is not None:
+                    try:
+                        cur = ev(v["disc"], {})
+                    except NoEval:
+                        okd = False
+                        break
+                else:
+                    cur += 1
+                disc[v["name"]] = cur
+            if okd:
+                enums[it["name"]] = disc
+    n = 0
+    for it in core:
+        if it["k"] != "method" or not re.match(r"^from_u(8|16|32)$", it["name"]) or not it.get("body"):
+            continue
+        en = X.type_head(it["self"])
+        if en not in enums:
+            continue
+        for m in find(it["body"], "match"):
+            for a in m[2]:
+                if a[0][0] != "plit":
+                    continue
+                try:
+                    tag = int(re.sub(r"[^0-9xXa-fA-F]", "", render(a[0][1])), 0)
+                except ValueError:
+                    try:
+                        tag = ev(a[0][1], {})
+                    except NoEval:
+                        continue
+                vs = [re.match(r"^%s::(\w+)$" % en, x[1]).group(1) for x in walk(a[2]) if x[0] == "path" and re.match(r"^%s::(\w+)$" % en, x[1])]
+                if len(vs) != 1:
+                    continue
+                n += 1
+                want = enums[en].get(vs[0])
+                rep.check(want == tag, "C06-R15", "%s::%s:%s" % (en, it["name"], vs[0]),
+                          "%s::%s maps %d to %s::%s, whose discriminant (what the writer emits) is %s: a value written with one tag is decoded as another type" % (en, it["name"], tag, en, vs[0], want),
+                          "%s::%s (mech_core.lib)" % (en, it["name"]), sample={"enum": en, "variant": vs[0], "tag": tag})
+    rep.floor("C06-R15", "tag decoder arms compared with discriminants", n, 50)
